@@ -18,7 +18,7 @@ from .. import facts as F
 from .. import tables
 from .. import terms as T
 from ..disasm import DisasmModel
-from ..vmmodel import EXEC_ERR, JUMP_KINDS, VMModel
+from ..vmmodel import EXEC_ERR, JUMP_KINDS, VMModel, arm_kinds
 
 JUMPDEST_TY = "opcode::control::JumpDest"
 NARROWING = ("as_u8", "as_u16", "as_u32", "as_u64", "as_u128", "as_usize", "as_i32", "as_i64")
@@ -366,6 +366,26 @@ def check(fx, rep, tier):
                     tt = T.term(body["block"]["expr"], T.Env())
                     tail_ok = tt[0] == "struct" and str(tt[2]).endswith("Ok")
                 rep.oblige(tail_ok, "R08.5", "bad-target-ok", F.loc(err_arm["span"]), "a bad conditional-jump target makes the instruction fail instead of continuing on the fall-through path")
+                # none of the four bad-target kinds may leave the arm as an Err (every Err built in the arm is reached only
+                # by other kinds)
+                err_adt = fx.adt(EXEC_ERR)
+                all_kinds = [v["name"] for v in err_adt["variants"]] if err_adt else []
+                leaking = set()
+                n_err = 0
+                for c, cps in F.walk(err_arm["body"]):
+                    if c.get("k") == "Call" and (F.path_def(c["f"]) or "").endswith("::Err") and not c.get("exp"):
+                        n_err += 1
+                        full = tuple(p for p in cps)
+                        ks = arm_kinds(full, all_kinds, fx=fx)
+                        leaking |= (set(all_kinds) if ks is None else ks) & JUMP_KINDS
+                rep.oblige(
+                    not leaking,
+                    "R08.5",
+                    "bad-target-kinds-tolerated",
+                    F.loc(err_arm["span"]),
+                    f"the conditional jump fails (and the VM then ends the fall-through path) for bad-target kind(s) {sorted(leaking)}: every bad target must leave the not-taken path alive",
+                    sample={"rule": "R08.5", "err_exits_in_arm": n_err, "jump_kinds_reaching_them": sorted(leaking)},
+                )
     rep.exhaustive = True
     return rep.finish(
         "Path/def-use audit of the jump-target validator (constant only; checked conversion of the full 256-bit value with no narrowing on the way; instruction exists; is JUMPDEST; returns that target), "
